@@ -778,15 +778,9 @@ func (r *Reconciler) reconcileApply(ctx context.Context, proposal *configapi.Pro
 					failureType = configapi.Failure_INTERNAL
 				}
 
-				// Update the Configuration's applied index to indicate this Proposal was applied even though it failed.
-				log.Infof("Updating applied index for Configuration '%s' to %d in term %d", config.ID, proposal.TransactionIndex, config.Status.Mastership.Term)
-				config.Status.Applied.Index = proposal.TransactionIndex
-				if err := r.configurations.UpdateStatus(ctx, config); err != nil {
-					log.Warnf("Failed reconciling Transaction %d Proposal to target '%s'", proposal.TransactionIndex, proposal.TargetID, err)
-					return controller.Result{}, err
-				}
-
-				// Add the failure to the proposal's apply phase state.
+				// Add the failure to the proposal's apply phase state. This comes first: a proposal found APPLYING
+				// behind the applied index is taken for applied (see above), which a refused proposal must never be,
+				// whatever happens between the two writes.
 				log.Warnf("Failed applying Proposal '%s'", proposal.ID, err)
 				proposal.Status.Phases.Apply.State = configapi.ProposalApplyPhase_FAILED
 				proposal.Status.Phases.Apply.Failure = &configapi.Failure{
@@ -796,6 +790,15 @@ func (r *Reconciler) reconcileApply(ctx context.Context, proposal *configapi.Pro
 				proposal.Status.Phases.Apply.Term = config.Status.Mastership.Term
 				proposal.Status.Phases.Apply.End = getCurrentTimestamp()
 				if err := r.updateProposalStatus(ctx, proposal); err != nil {
+					return controller.Result{}, err
+				}
+
+				// Update the Configuration's applied index to indicate this Proposal was applied even though it failed.
+				// If this does not succeed, the FAILED proposal is reconciled again and completes it.
+				log.Infof("Updating applied index for Configuration '%s' to %d in term %d", config.ID, proposal.TransactionIndex, config.Status.Mastership.Term)
+				config.Status.Applied.Index = proposal.TransactionIndex
+				if err := r.configurations.UpdateStatus(ctx, config); err != nil {
+					log.Warnf("Failed reconciling Transaction %d Proposal to target '%s'", proposal.TransactionIndex, proposal.TargetID, err)
 					return controller.Result{}, err
 				}
 				return controller.Result{}, nil
@@ -834,9 +837,37 @@ func (r *Reconciler) reconcileApply(ctx context.Context, proposal *configapi.Pro
 			return controller.Result{}, err
 		}
 		return controller.Result{}, nil
-	case configapi.ProposalApplyPhase_APPLIED, configapi.ProposalApplyPhase_FAILED:
-		// The applied index has moved past this proposal, whether the target accepted it or refused it:
-		// the next proposal may be waiting for that.
+	case configapi.ProposalApplyPhase_FAILED:
+		// The failure is recorded before the applied index is moved past the proposal: make sure that has happened.
+		configID := configuration.NewID(proposal.TargetID, proposal.TargetType, proposal.TargetVersion)
+		config, err := r.configurations.Get(ctx, configID)
+		if err != nil {
+			if !errors.IsNotFound(err) {
+				log.Errorf("Failed reconciling Transaction %d Proposal to target '%s'", proposal.TransactionIndex, proposal.TargetID, err)
+				return controller.Result{}, err
+			}
+			return controller.Result{}, nil
+		}
+		if config.Status.Applied.Index < proposal.TransactionIndex {
+			if proposal.Status.PrevIndex != 0 && config.Status.Applied.Index != proposal.Status.PrevIndex {
+				return controller.Result{Requeue: controller.NewID(proposalstore.NewID(proposal.TargetID, proposal.Status.PrevIndex))}, nil
+			}
+			log.Infof("Updating applied index for Configuration '%s' to %d", config.ID, proposal.TransactionIndex)
+			config.Status.Applied.Index = proposal.TransactionIndex
+			if err := r.configurations.UpdateStatus(ctx, config); err != nil {
+				log.Warnf("Failed reconciling Transaction %d Proposal to target '%s'", proposal.TransactionIndex, proposal.TargetID, err)
+				return controller.Result{}, err
+			}
+		}
+		// The next proposal may be waiting for the applied index to reach this proposal.
+		if proposal.Status.NextIndex != 0 {
+			return controller.Result{
+				Requeue: controller.NewID(proposalstore.NewID(proposal.TargetID, proposal.Status.NextIndex)),
+			}, nil
+		}
+		return controller.Result{}, nil
+	case configapi.ProposalApplyPhase_APPLIED:
+		// The applied index has moved past this proposal: the next proposal may be waiting for that.
 		if proposal.Status.NextIndex != 0 {
 			return controller.Result{
 				Requeue: controller.NewID(proposalstore.NewID(proposal.TargetID, proposal.Status.NextIndex)),
